@@ -14,6 +14,7 @@ import (
 	"github.com/vektah/gqlparser/v2"
 	"github.com/vektah/gqlparser/v2/ast"
 	"github.com/vektah/gqlparser/v2/formatter"
+	"github.com/vektah/gqlparser/v2/parser"
 )
 
 var introspectionQueryName string = "IntrospectionQuery"
@@ -301,6 +302,12 @@ func parseInputField(field IntrospectionInputValue) *ast.FieldDefinition {
 		return fd
 	}
 
+	// the specification delivers a default value as a string which holds a GraphQL literal
+	if literal := parseDefaultValueLiteral(field.DefaultValue, fd.Type); literal != nil {
+		fd.DefaultValue = literal
+		return fd
+	}
+
 	bRaw, err := json.Marshal(field.DefaultValue)
 	if err != nil {
 		return fd
@@ -371,15 +378,85 @@ func parseInputField(field IntrospectionInputValue) *ast.FieldDefinition {
 	return fd
 }
 
+// parseDefaultValueLiteral reads a default value the way the specification delivers it: a string
+// holding a GraphQL literal ("7", "\"text\"", "[1, 2]", "RED", "{a: 1}"). It returns nil when the
+// value is no string, is no literal or is a literal which cannot be a value of the type; such
+// values are taken as the plain JSON value of the default
+func parseDefaultValueLiteral(defaultValue interface{}, typ *ast.Type) *ast.Value {
+	raw, ok := defaultValue.(string)
+	if !ok {
+		return nil
+	}
+
+	doc, err := parser.ParseQuery(&ast.Source{Input: "{ f(x: " + raw + ") }"})
+	if err != nil || len(doc.Operations) != 1 || len(doc.Operations[0].SelectionSet) != 1 {
+		return nil
+	}
+
+	field, ok := doc.Operations[0].SelectionSet[0].(*ast.Field)
+	if !ok || len(field.Arguments) != 1 || field.Arguments[0].Value == nil {
+		return nil
+	}
+
+	value := field.Arguments[0].Value
+	if !isLiteralOfType(value, typ) {
+		return nil
+	}
+
+	return value
+}
+
+func isLiteralOfType(value *ast.Value, typ *ast.Type) bool {
+	if value.Kind == ast.NullValue {
+		return !typ.NonNull
+	}
+
+	if value.Kind == ast.Variable {
+		return false
+	}
+
+	if typ.Elem != nil {
+		if value.Kind != ast.ListValue {
+			// a single value is coerced to a list of one
+			return isLiteralOfType(value, typ.Elem)
+		}
+		for _, child := range value.Children {
+			if !isLiteralOfType(child.Value, typ.Elem) {
+				return false
+			}
+		}
+		return true
+	}
+
+	switch typ.Name() {
+	case "Int":
+		return value.Kind == ast.IntValue
+	case "Float":
+		return value.Kind == ast.IntValue || value.Kind == ast.FloatValue
+	case "Boolean":
+		return value.Kind == ast.BooleanValue
+	case "String":
+		return value.Kind == ast.StringValue || value.Kind == ast.BlockValue
+	case "ID":
+		return value.Kind == ast.StringValue || value.Kind == ast.IntValue
+	}
+
+	// enums, input objects and custom scalars
+	return value.Kind != ast.ListValue
+}
+
 func parseArgList(args []IntrospectionInputValue) ast.ArgumentDefinitionList {
 	result := ast.ArgumentDefinitionList{}
 
 	// we need to add each argument to the field
 	for _, argument := range args {
+		// arguments have default values like input fields do
+		asField := parseInputField(argument)
 		result = append(result, &ast.ArgumentDefinition{
-			Name:        argument.Name,
-			Description: argument.Description,
-			Type:        parseTypeRef(&argument.Type),
+			Name:         argument.Name,
+			Description:  argument.Description,
+			Type:         asField.Type,
+			DefaultValue: asField.DefaultValue,
 		})
 	}
 
